@@ -19,6 +19,7 @@ pub fn scenario(tier: &str) -> (Life, Bounds) {
         precommits: th,
         horizon: None,
         big: false,
+        tick_faults: false,
     };
     let b = if th {
         Bounds { max_depth: 400, wall_cap_s: 1500.0, ..Default::default() }
